@@ -24,6 +24,7 @@ RULE = ("merge: 1-12 records over 1-4 ids (ids in random, unsorted order), 0-3 c
         "commas, quotes, blanks); in a fifth of the raire / raire_file cases candidate, ballot and contest identifiers "
         "with letters outside ASCII ('José' next to 'Jos', 'Köln-7' next to 'Kln-7'); non-trivial = some id occurs in >= 2 records; distinct = distinct canonical input")
 EXHAUSTIVE = {"quick": False, "thorough": False}
+RULE += "; option stream (n/12 more cases, own generator, OPTIONS_AUDIT.md): CVR(id, ...) and CVR.from_vote(vote, ...) with every default-valued argument left out (integer id 1, contest AvB), from_raire without phantom, from_raire_file(cvr_file=)"
 
 
 # ------------------------------------------------------------------------------------------ corpus
